@@ -277,6 +277,8 @@ def run_case(case, seed):
                 ("normQ", lambda: u.normQ(Aq)),
                 ("normQsparse", lambda: u.normQsparse(*comps(A))),
                 ("normQsparse_sp", lambda: u.normQsparse(*[sp.csr_matrix(c) for c in comps(A)])),
+                ("normQsparse_csr_array", lambda: u.normQsparse(*[sp.csr_array(c) for c in comps(A)])),
+                ("normQsparse_coo_array", lambda: u.normQsparse(*[sp.coo_array(c) for c in comps(A)])),
                 ("fro_dense_H", lambda: u.quat_frobenius_norm(u.quat_hermitian(Aq))),
                 ("fro_sparse_H", lambda: u.quat_frobenius_norm(u.quat_hermitian(to_sparse(lib, A)))),
                 ("matrix_norm", lambda: u.matrix_norm(Aq)),
@@ -285,6 +287,9 @@ def run_case(case, seed):
                 evals += 1
                 if not ok:
                     fails.append(fail("norm_raised", f"{nm} on {cls}: {v}", fn=nm, cls=cls))
+                    continue
+                if not isinstance(v, (int, float, np.floating, np.integer)) and not (isinstance(v, np.ndarray) and v.ndim == 0):
+                    fails.append(fail("norm_not_a_scalar", f"{nm} on {cls} returned {type(v).__name__}", fn=nm, cls=cls))
                     continue
                 vals[nm] = float(v)
                 if not (abs(float(v) - exact) <= tol):
